@@ -17,6 +17,7 @@ CONSTANTS
   PolicyNames = {"b2"}
   MaxTicks = 1
   MaxPol = 1
+  MaxFaults = 0
   MaxRestart = 0
   WithW2 = FALSE
   Export = TRUE
